@@ -425,9 +425,9 @@ func Dump(e *Expr) string {
 		return
 	}
 
-	var helper func(int16) (string, bool)
+	var helper func(int16, string) (string, bool)
 
-	helper = func(idx int16) (string, bool) {
+	helper = func(idx int16, indent string) (string, bool) {
 		n := e.nodes[idx]
 		if n.childCnt == 0 {
 			return dumpLeafNode(n)
@@ -437,17 +437,18 @@ func Dump(e *Expr) string {
 		sb.WriteString(fmt.Sprintf("(%v", n.value))
 
 		childIdxes := getChildIdxes(idx)
+		childIndent := indent + "  "
 
 		for _, cIdx := range childIdxes {
-			cc, isLeaf := helper(cIdx)
+			cc, isLeaf := helper(cIdx, childIndent)
 			if isLeaf {
 				sb.WriteString(fmt.Sprintf(" %s", cc))
 				continue
 			}
 
-			for _, cs := range strings.Split(cc, "\n") {
-				sb.WriteString(fmt.Sprintf("\n  %s", cs))
-			}
+			// nested expressions are rendered with their own indentation, the text is
+			// never re-indented afterwards so that multi-line string literals stay intact
+			sb.WriteString("\n" + childIndent + cc)
 		}
 		sb.WriteString(")")
 		return sb.String(), false
@@ -460,7 +461,7 @@ func Dump(e *Expr) string {
 		}
 	}
 
-	res, _ := helper(rootIdx)
+	res, _ := helper(rootIdx, "")
 	return res
 }
 
